@@ -13,7 +13,7 @@ Theorem C02_deliver_at_most_once :
   forall (A : Type) (H : bytes -> bytes) (has_route : bytes -> bool)
          (on_recv : A -> packet -> option (A * option bytes))
          (on_ack : A -> packet -> bytes -> option A)
-         (c : chain A) (ops : list op) (s d : bytes) (n : N),
+         (c : chain A) (ops : list (op A)) (s d : bytes) (n : N),
     Forall op_wf ops -> wfk s d n ->
     (ndeliver s d n (run_log A H has_route on_recv on_ack c ops) <= 1)%nat.
 Proof. exact deliver_at_most_once. Qed.
